@@ -333,8 +333,8 @@ def _run_slope(spec):
     rec.sample = {"spec": spec, "errors": errs, "slope": slope, "declared": p}
     if slope < p + 1 - 0.6:
         mech = "local_error_slope_below_declared"
-        if info["splitting"]:
-            mech = "splitting_local_slope_%d" % int(round(slope))
+        if info["splitting"] and slope >= 5 - 0.6:
+            mech = "splitting_local_order_4"
         rec.violate("declared_order_slope", mech, {"method": spec["method"], "family": info["family"], "declared": p, "sign": sgn},
                     slope=slope, errors=errs, hs=hs)
     return rec.out()
